@@ -99,12 +99,15 @@ def rheo_inputs_strategy(name):
     return st.tuples(*[_INPUT_STRATS[k] for k in RHEO_INPUTS[name]]).map(list)
 
 
-def body_strategy(rheologies):
+def body_strategy(rheologies, finding_weight=1.0):
     def with_inputs(b):
         return rheo_inputs_strategy(b['rheology']).map(lambda inp: dict(b, rheo_inputs=inp))
     base = st.fixed_dictionaries({
         'log_R': st.floats(5.0, 7.8), 'log_rho': st.floats(2.7, 4.1), 'moi_factor': st.floats(0.2, 0.4),
-        'rheology': st.sampled_from([r for r in rheologies for _ in range(1 if r in NONDISSIPATIVE else 4)]),
+        # the rheologies behind C10's known ZeroDivisionError findings get a lower weight (C10: 1:4, others: 1:12 / 3:12)
+        'rheology': st.sampled_from([r for r in rheologies for _ in range(
+            (1 if r in NONDISSIPATIVE else 4) if finding_weight >= 1.0 else
+            (1 if r in NONDISSIPATIVE else (3 if r == 'newton' else 12)))]),
         'tidal_scale': st.one_of(st.just(1.0), st.floats(0.05, 1.0)),
         'fixed_k2': st.floats(0.01, 1.4), 'log_fixed_q': st.floats(0.5, 5.0),
         'dt_factor': st.one_of(st.none(), st.floats(-2.0, 2.0)),   # None: the function's own default 1/(Q n)
@@ -142,9 +145,9 @@ def point_strategy():
     })
 
 
-def tide_case_strategy(tier, kinds=('single',), array_fraction=3):
+def tide_case_strategy(tier, kinds=('single',), array_fraction=3, finding_weight=1.0):
     rheos, truncs, lmaxs, amodes = shard_config(tier)
-    body = body_strategy(rheos)
+    body = body_strategy(rheos, finding_weight)
     scalar_pts = st.lists(point_strategy(), min_size=1, max_size=1)
     array_pts = st.lists(point_strategy(), min_size=1, max_size=4)
 
@@ -154,6 +157,7 @@ def tide_case_strategy(tier, kinds=('single',), array_fraction=3):
             'l_max': st.sampled_from(lmaxs), 'trunc': st.sampled_from(truncs),
             'as_array': st.just(as_array) if not as_array else st.sampled_from(amodes),
             'log_host_mass': st.floats(22.0, 30.0),
+            'e_none': st.booleans(),      # scalar e == 0 is passed as eccentricity=None (the documented default)
             'bodies': st.tuples(body, body).map(list),
             'pts': array_pts if as_array else scalar_pts,
         })
@@ -235,6 +239,7 @@ class Setup:
         self.l_max = int(case['l_max'])
         self.trunc = int(case['trunc'])
         self.dual = dual
+        self.e_none = bool(case.get('e_none', False)) and case['as_array'] is False and float(pts[0]['e']) == 0.0
         self.bodies = [Body(case['bodies'][0], 0, pts, self.as_array)]
         if dual:
             self.bodies.append(Body(case['bodies'][1], 1, pts, self.as_array))
@@ -265,7 +270,12 @@ class Setup:
         # the semi-major axis as Kepler's third law gives it for the mean motion actually passed
         self.a = (G_SI * self.M_total / self.n ** 2) ** (1.0 / 3.0)
         for b in self.bodies:
-            b.spin = self.n.copy() if b.sync else b.ratio * self.n
+            if b.sync:
+                b.spin = self.n.copy()
+            elif mode in ('e', 'n', 'visc'):
+                b.spin = b.ratio[0] * self.n[0] * np.ones(self.k)      # the spin rate is passed as one float
+            else:
+                b.spin = b.ratio * self.n
             b.fixed_dt = None if b.spec['dt_factor'] is None else \
                 (10.0 ** b.spec['dt_factor']) / (b.fixed_q * float(self.n[0]))
             b.host_mass = (self.bodies[1 - b.idx].mass if dual else self.host_mass)
@@ -303,6 +313,8 @@ def single_kwargs(su, body, j=None, derivatives=True):
         kw['spin_frequency'] = su.arr(body.spin, 'spin', j)
     if body.obl is not None:
         kw['obliquity'] = su.arr(body.obl, 'obl', j)
+    if su.e_none:
+        del kw['eccentricity']
     return kw
 
 
@@ -331,6 +343,8 @@ def dual_kwargs(su, j=None):
               tidal_scales=(b0.tidal_scale, b1.tidal_scale), fixed_k2s=tuple(k2s), fixed_qs=tuple(qs),
               fixed_dts=tuple(dts), eccentricity=s(su.e, 'e'), orbital_frequency=s(su.n, 'n'),
               max_tidal_order_l=su.l_max, eccentricity_truncation_lvl=su.trunc)
+    if su.e_none:
+        del kw['eccentricity']
     return kw
 
 
@@ -425,6 +439,7 @@ def mode_sum(su, body, trunc=None, with_love=True):
     sw = np.zeros(k)
     sO = np.zeros(k)
     sid = np.zeros(k)
+    kmax = np.zeros(k)
     passive = True
     finite = True
     freqs = [set() for _ in range(k)]
@@ -468,6 +483,7 @@ def mode_sum(su, body, trunc=None, with_love=True):
                 kl = love_cache[key]
                 sig_by_l.setdefault(l, {})[sig] = kl
                 K = -kl.imag * body.tidal_scale
+                kmax = np.maximum(kmax, np.abs(K))
                 uK = u * K
                 H += uK * aw
                 dM += uK * ncoef * sg
@@ -491,6 +507,8 @@ def mode_sum(su, body, trunc=None, with_love=True):
     out.s_dUdw = chi / M * sw
     out.s_dUdO = chi / M * sO
     out.s_identity = chi * sid
+    out.k_max = kmax                  # largest |-Im k_l| over the modes (per element)
+    out.unit = chi                    # G M^2 R^5 / a^6
     out.passive = passive
     out.has_zero_freq = zero_freq     # some mode of the enumeration has (numerically) zero frequency
     out.finite = finite
